@@ -17,15 +17,18 @@ from mc.ref import attrs, wild
 
 ID = 'C03'
 TITLE = 'Attribute sets are validated per declared uses, value constraints and wildcards'
-RULE = ('every declaration vector of the bound (items Lp/Lq local unqualified, LTp local form=qualified, RTp/RN1g/Rxml '
-        'refs to global attributes; each use x value-constraint x direct|attributeGroup x type) x every wildcard of the '
+RULE = ('every declaration vector of the bound (items Lp/Lq local unqualified, LTp local form=qualified, RTp/RTd/RN1g/Rxml '
+        'refs to global attributes (t:d declares a default, n1:g a fixed value); each use x value-constraint x direct|attributeGroup x type) x every wildcard of the '
         'tier x every subset of the pool {p,q,T:p,N1:g,N2:u,xml:lang,xsi:foo} with canonical values (decoded under '
-        'use_defaults x fill_missing, lax) + every single (thorough: also double) value deviation + xsi:nil / N1:h '
-        'extras; a case is non-trivial when its (version, schema, set of reference judgement kinds) signature is new')
+        'use_defaults x fill_missing, lax) + every single (thorough: also double) value deviation + xsi:nil / N1:h / '
+        'T:d extras; a case is non-trivial when its (version, schema, set of reference judgement kinds) signature is new')
 ASSUMPTIONS = [
     'one empty-content nillable element; all namespaces used by the instance are declared and passed to the converter',
     'schemas outside the XSD rules are not generated: default with use!=optional, fixed with use=prohibited, a '
     'default on a ref to a fixed global, two declarations of one name',
+    'the effective value constraint of an attribute use is the one written on the use, else the one of the '
+    'referenced global declaration (t:d default="2", n1:g fixed="1"); a fixed or default on a ref to t:d overrides '
+    'the global default',
     'a use="prohibited" declaration contributes no attribute use (XSD 1.0/1.1 3.2.2): such a name is judged like an '
     'undeclared one; when the wildcard admits its namespace the case is skipped and counted (statement silent)',
     'an unknown xsi:foo attribute is judged by the wildcard like any other name only when the wildcard namespace '
@@ -45,12 +48,13 @@ PREFIX2TOKEN = {'t': 'T', 'n1': 'N1', 'n2': 'N2', 'xsi': 'XSI', 'xml': 'XML'}
 URI2TOKEN = {v: k for k, v in NSURI.items()}
 
 POOL = ('p', 'q', 'T:p', 'N1:g', 'N2:u', 'XML:lang', 'XSI:foo')
-EXTRA = ('XSI:nil', 'N1:h')
-GLOBALS = {'T:p': ('int', None), 'N1:g': ('int', ('fixed', '1')), 'XML:lang': ('lang', None)}
+EXTRA = ('XSI:nil', 'N1:h', 'T:d')
+GLOBALS = {'T:p': ('int', None), 'T:d': ('int', ('default', '2')), 'N1:g': ('int', ('fixed', '1')),
+           'XML:lang': ('lang', None)}
 N1_SCHEMA = ('<xs:schema xmlns:xs="http://www.w3.org/2001/XMLSchema" targetNamespace="urn:n1">'
              '<xs:attribute name="g" type="xs:int" fixed="1"/></xs:schema>')
 CANON = {'XML:lang': 'en', 'XSI:nil': 'false'}
-ALTS = {'XML:lang': ('de', '1', ''), 'XSI:nil': ()}
+ALTS = {'XML:lang': ('de', '1', ''), 'XSI:nil': (), 'N1:h': (), 'T:d': ('01', 'true', '0', '2')}
 DEF_ALTS = ('01', 'true', '0')
 CONVAL = {'string': '1', 'int': '1', 'boolean': 'true', 'lang': 'en'}
 CFGS = ((True, False), (False, False), (True, True), (False, True))     # (use_defaults, fill_missing)
@@ -58,8 +62,9 @@ CFGS = ((True, False), (False, False), (True, True), (False, True))     # (use_d
 # items: kind -> (local, form, ref, has type dimension)
 ITEMS = {'Lp': ('p', 'unqualified', None, True), 'Lq': ('q', 'unqualified', None, True),
          'LTp': ('p', 'qualified', None, True), 'RTp': (None, None, 'T:p', False),
-         'RN1g': (None, None, 'N1:g', False), 'Rxml': (None, None, 'XML:lang', False)}
-ORDER = ('Lp', 'Lq', 'LTp', 'RTp', 'RN1g', 'Rxml')
+         'RN1g': (None, None, 'N1:g', False), 'Rxml': (None, None, 'XML:lang', False),
+         'RTd': (None, None, 'T:d', False)}
+ORDER = ('Lp', 'Lq', 'LTp', 'RTp', 'RN1g', 'Rxml', 'RTd')
 USECON = (('optional', None), ('optional', 'default'), ('optional', 'fixed'), ('required', None),
           ('required', 'fixed'), ('prohibited', None))
 CONTESTED_KINDS = ('prohibited-under-wildcard', 'xsi-foo-excluded-by-wildcard')
@@ -120,7 +125,9 @@ def wildcards(version, level):
     cs.append(('enum', ('L', 'N1'), ()) if version == '1.0' else ('not', ('L', 'N1'), ()))
     out = [None] + [(c, pc) for c in cs for pc in ('skip', 'lax', 'strict')]
     if level == 'mid':
-        out = [w for w in out if w is None or w[0][0] in ('any', 'other') or w[0][1] in (('L',), ('T',))]
+        keep = (('any', 'lax'), ('any', 'strict'), ('other', 'strict'), ('other', 'skip'), (('L',), 'skip'),
+                (('T',), 'lax'), (('T',), 'strict'))
+        out = [w for w in out if w is None or (w[0][0] if w[0][0] != 'enum' else w[0][1], w[1]) in keep]
     return out
 
 
@@ -142,9 +149,9 @@ def schema_space(tier, seed):
                     out.append((version, items, wc, heavy))
         add([()], 'all', heavy=(tier == 'thorough'))
         if tier == 'quick':
-            add(decl_vectors(1, 9, kinds=('Lp', 'LTp', 'RTp', 'RN1g', 'Rxml')), 'all')
+            add(decl_vectors(1, 9, kinds=('Lp', 'LTp', 'RTp', 'RN1g', 'Rxml', 'RTd')), 'all')
             add(decl_vectors(2, 1), 'few')
-            add(decl_vectors(2, 2, exactdev=2), 'few', slice_k=8)       # seed-selected slice of the next bound
+            add(decl_vectors(2, 2, exactdev=2), 'few', slice_k=16)      # seed-selected slice of the next bound
         else:
             add(decl_vectors(1, 9), 'all', heavy=True)
             add(decl_vectors(2, 1), 'all')
@@ -200,7 +207,7 @@ def render_schema(items, wc):
     return ('<xs:schema xmlns:xs="http://www.w3.org/2001/XMLSchema" targetNamespace="urn:t" xmlns:t="urn:t" '
             'xmlns:n1="urn:n1">\n<xs:import namespace="urn:n1"/>\n'
             '<xs:import namespace="http://www.w3.org/XML/1998/namespace"/>\n'
-            '<xs:attribute name="p" type="xs:int"/>\n%s\n'
+            '<xs:attribute name="p" type="xs:int"/>\n<xs:attribute name="d" type="xs:int" default="2"/>\n%s\n'
             '<xs:element name="e" nillable="true"><xs:complexType>\n%s\n</xs:complexType></xs:element>\n</xs:schema>'
             % ('\n'.join(groups), '\n'.join(body)))
 
@@ -250,6 +257,10 @@ def instances(heavy):
     for x in EXTRA:
         for s in _subsets(POOL, 1):
             out.append((dict({n: canon(n) for n in s}, **{x: canon(x)}), 'cfg', True))
+    for x in EXTRA:                                                   # value deviations of the extra names
+        for s in _subsets(POOL, 1):
+            for v in alts(x):
+                out.append((dict({n: canon(n) for n in s}, **{x: v}), 'one', True))
     for n in POOL:                                                    # one value deviation
         others = [m for m in POOL if m != n]
         for s in _subsets(others):
@@ -438,12 +449,12 @@ def replay(case):
 
 def bounds(tier, seed):
     sp = schema_space(tier, seed)
-    return {'size': 'declared attributes <= %d of 6 items; pool of %d names, all %d subsets; extras %s'
-                    % (2 if tier == 'quick' else 3, len(POOL), 2 ** len(POOL), list(EXTRA)),
-            'deviations': ('quick: 1 item complete option product x 22 wildcards; 2 items D<=1 x 4 wildcards; 1/8 seed '
+    return {'size': 'declared attributes <= %d of %d items; pool of %d names, all %d subsets; extras %s'
+                    % (2 if tier == 'quick' else 3, len(ORDER), len(POOL), 2 ** len(POOL), list(EXTRA)),
+            'deviations': ('quick: 1 item complete option product x 22 wildcards; 2 items D<=1 x 4 wildcards; 1/16 seed '
                            'slice of 2 items D=2 x 4 wildcards; value deviations <= 1 with <= 2 other attributes present'
                            if tier == 'quick' else
                            'thorough: 1 item complete product x 22 wildcards with value deviations <= 1 over all subsets '
-                           'and <= 2 with <= 1 other present; 2 items D<=1 x 22 wildcards; 2 items D=2 x 13 wildcards; '
+                           'and <= 2 with <= 1 other present; 2 items D<=1 x 22 wildcards; 2 items D=2 x 8 wildcards; '
                            '3 items D<=1 x 4 wildcards'),
             'schemas': len(sp), 'instances_per_schema': {'light': len(inst_list(False)), 'heavy': len(inst_list(True))}}
